@@ -34,7 +34,7 @@ contain - is decoded to exactly that message. -/
 theorem decMsg_rt (cfg : Cfg) (dict : Lookup) (m : Msg) (body : Bytes)
     (hc : ConsList m.avps) (hwf : WFList m.avps) (hty : TypedList dict m.avps)
     (hlen : m.length = 20 + lenList m.avps) (hlen24 : m.length < 16777216)
-    (hcmd : cmdKnown m.cmd = true) (happ : appKnown m.app = true)
+    (hcmd : cfg.tables.cmdKnown m.cmd = true) (happ : cfg.tables.appKnown m.app = true)
     (hcmd24 : m.cmd < 16777216) (happ32 : m.app < 4294967296)
     (hd : depthList m.avps ≤ cfg.limit)
     (hbl : body.length = (maskList m.avps).length)
